@@ -297,7 +297,7 @@ func init() {
 		MinNontrivial: 1000,
 		Streams: []Stream{
 			{Name: "shapes", Setup: c19Setup, N: func(c *Ctx) int { return len(c19Shapes) }, Run: c19ShapesRun, Exhaustive: true},
-			{Name: "random", Setup: c19Setup, N: func(c *Ctx) int { return tierN(c, 40000, 3000000) }, Run: c19Random},
+			{Name: "random", Setup: c19Setup, N: func(c *Ctx) int { return tierN(c, 40000, 10000000) }, Run: c19Random},
 		},
 	})
 }
